@@ -26,6 +26,11 @@ DOM = {
     "fromctx2": {"from_context": "r"},
     "seq0": {"values": [0.0, 2.0, 0.0]},      # falsy elements, repeated elements
     "lin0": {"lo": 0.0, "hi": 0.0, "steps": 2},  # degenerate range
+    # numbers are numbers: ints and bools next to floats, non-finite values, a long sequence, an int-typed range
+    "seqmixed": {"values": [1, 2.0, True]},
+    "seqinf": {"values": [float("inf"), 1.0, float("-inf")]},
+    "seq12": {"values": [float(i) for i in range(12, 0, -1)]},
+    "lin3int": {"lo": 1, "hi": 3, "steps": 3},
 }
 KIND = {
     "src": dict(proc="VSrc2", swept="value", other="offset", other_default=0.5, collection=True, data=None),
@@ -177,7 +182,8 @@ def judge(case: dict, scratch) -> Optional[Tuple[str, str]]:
 def cases(tier: str) -> List[dict]:
     out: List[dict] = []
     modes = [("combinatorial", False), ("by_position", False), ("by_position", True), ("combinatorial", True)]
-    d1 = ["lin3", "lin3_noend", "lin1", "log3", "log3_noend", "seq1", "seq2", "seq3", "list2", "list3", "fromctx2", "seq0", "lin0"]
+    d1 = ["lin3", "lin3_noend", "lin1", "log3", "log3_noend", "seq1", "seq2", "seq3", "list2", "list3", "fromctx2", "seq0", "lin0",
+          "seqmixed", "seqinf", "seq12", "lin3int"]
     d2 = ["seq2", "seq3", "lin3", "log3_noend", "fromctx2", "seq1", "list2"]
     e1 = [None, "t", "2.0 * t", "float(t)", "max(t, 2.0)"]
     e2 = ["t + u", "t * u", "max(t, u)", "u - t", "t"]
